@@ -43,7 +43,12 @@ _ops = st.one_of(
 @st.composite
 def _case(draw):
     return {
-        "cls": draw(st.sampled_from(["ParNoSubDep", "ParNoSubDep", "Par"])),
+        "cls": draw(st.sampled_from(["ParNoSubDep", "ParNoSubDep", "Par", "ParSlots"])),
+        # an instance of the parent class was copied earlier in the process (only matters for the subclass with slots)
+        "ancestor_copied_first": draw(st.booleans()),
+        # the original explicitly holds the value that is the class default; after the copies were made and used, the class
+        # default is reassigned: neither the original nor a copy follows it
+        "cls_default_after": draw(st.sampled_from([False, False, True])),
         "pre": draw(st.lists(_ops, max_size=8)),
         "how": draw(st.sampled_from(["deepcopy", "pickle2", "pickle3", "pickle4", "pickle5", "deepcopy"])),
         # each post-copy operation is aimed at one object (0 original, 1 copy, 2 second copy if there is one) and may run
@@ -158,7 +163,8 @@ def _apply(op, obj, m, marks):
         import functools
         tag_ = f"t{op[1]}"
         if tag_ not in m.partials:
-            obj.param.watch(functools.partial(obj.note, tag_), ["a"])
+            # (registered in whatever order the tags come, called in the order of their precedence: the higher the tag, the earlier)
+            obj.param.watch(functools.partial(obj.note, tag_), ["a"], precedence=40 - op[1])
             m.partials.append(tag_)
             marks.add("partial_of_own_method_as_watcher")
     elif k == "sd_setkey":
@@ -212,13 +218,15 @@ def _state(obj):
             "bounds": obj.param.a.bounds, "objects": list(obj.param.s.objects), "sd": obj.sd,
             "sd_objects": list(obj.param.sd.objects), "sd_range": list(obj.param.sd.get_range().values()),
             "sub": None if obj.sub is None else [obj.sub.x, obj.sub.y], "extra": dict(obj.extra),
-            "has_lock": getattr(obj, "_lock", None) == ["not part of the state"]}
+            "has_lock": getattr(obj, "_lock", None) == ["not part of the state"],
+            "slot": getattr(obj, "tag", None) if type(obj).__name__ == "ParSlots" else None}
 
 
 def _model_state(m):
     return {"a": m.a, "free": m.free, "l": list(m.l), "d": dict(m.d), "s": m.s, "bounds": m.bounds, "objects": list(m.objects),
             "sd": m.sd, "sd_objects": list(m.sd_objects), "sd_range": list(m.sd_objects),
-            "sub": None if m.sub is None else list(m.sub), "extra": dict(m.extra), "has_lock": True}
+            "sub": None if m.sub is None else list(m.sub), "extra": dict(m.extra), "has_lock": True,
+            "slot": ["kept in a slot"] if getattr(m, "slots", False) else None}
 
 
 def execute(case):
@@ -226,8 +234,14 @@ def execute(case):
     cls = getattr(ms, case["cls"])
     has_subdep = case["cls"] == "Par"
     marks = set()
+    if case["cls"] == "ParSlots" and case.get("ancestor_copied_first"):
+        copy.deepcopy(ms.ParNoSubDep())
+        res.label("ancestor_class_copied_earlier")
     orig = cls()
     m0 = Side(has_subdep)
+    m0.slots = case["cls"] == "ParSlots"
+    if case.get("cls_default_after"):
+        orig.a = orig.a            # from now on the value is the object's own (identical to the class default)
     # reading .param.a / .param.s creates per-instance Parameter copies only when an op asks for it
     for op in case["pre"]:
         before = len(orig.log)
@@ -331,6 +345,31 @@ def execute(case):
                                                 f"{_model_state(mm)!r}")
         if res.violations:
             break
+    if case.get("cls_default_after") and not res.violations:
+        base = ms.Par if case["cls"] == "Par" else ms.ParNoSubDep
+        old_default = base.a
+        try:
+            base.a = 77
+            res.label("class_default_reassigned_after_the_copies")
+            for o, mm, w in zip(objs, models, names_):
+                if _state(o) != _model_state(mm):
+                    res.fail("C17.not_independent", f"{region}after the class default of a was reassigned, the {w} is {_state(o)!r}, "
+                                                    f"its own model says {_model_state(mm)!r}")
+        finally:
+            base.a = old_default
+    # user watchers registered with explicit precedences run in that order, on every side (the order among the other callbacks
+    # of one operation is not claimed)
+    for o, w in zip(objs, names_):
+        run = []
+        for e in o.log + [("end",)]:
+            if e[0] == "note":
+                run.append(int(e[1][1:]))
+                continue
+            if run and run != sorted(run, reverse=True) and len(set(run)) == len(run):
+                res.fail("C17.dependency_log", f"{region}on the {w} the watchers registered with precedences ran in the order of tags "
+                                               f"{run!r} (higher tag = lower precedence value = earlier)")
+                break
+            run = []
     for mk in marks:
         res.label(mk)
     res.label("how:" + case["how"], "cls:" + case["cls"])
